@@ -313,3 +313,90 @@ def handleRobust (focus : String) (c : Case) : String := Id.run do
   return acc.render s!"{tag0}/{what}/{fitTag}"
 
 end Varpro.Drv
+
+namespace Varpro.Drv
+open Varpro
+
+/-- C05: the certified families (failing-input search).  Thresholds were calibrated on the unchanged
+tree (40 000 fits, all successful; worst values: reproduction 2.5e-15 / 1.4e-6 (f64/f32),
+cos∠(J_k, r) 3.9e-7 / 9.5e-3, SSQ(fit)/SSQ(truth) ≤ 0.99992) and frozen with margins ≥ 20. -/
+def handleConv (focus : String) (c : Case) : String := Id.run do
+  let _ := focus
+  let width := attrNat c.header "width" 64
+  let p := attrNat c.header "p"; let n := attrNat c.header "n"; let s := attrNat c.header "s"
+  let fam := attrStr c.header "family"
+  let noisy := attrStr c.header "noise" != "0e0"
+  let tag := s!"{fam}/{width}/{if noisy then "noisy" else "exact"}/{attrStr c.header "flavour"}"
+  let mut acc : Acc := { nontrivial := true, compared := 1 }
+  let some rl := c.firstWith "result" | return ({ acc with corr := acc.corr.push "no-result" }).render tag
+  let kind := rl.getD 1 ""
+  if kind != "ok" then
+    return ({ acc with mon := acc.mon.push s!"fit-did-not-succeed:{kind}:{attrStr rl "term"}" }).render tag
+  let evals := attrNat rl "evals"
+  if evals > 100 * (p + 1) then acc := { acc with mon := acc.mon.push s!"evaluations={evals}" }
+  let getF (k : String) : Option Float := match attrStr rl k with | "none" => none | "" => none | h => some (parseF h)
+  let reproTol := if width == 32 then 1e-4 else 1e-12
+  let cosTol := if width == 32 then 0.2 else 1e-4
+  match getF "repro", getF "ssqfit", getF "ssqtruth", getF "maxcos" with
+  | some repro, some ssqfit, some ssqtruth, some maxcos =>
+    acc := { acc with compared := acc.compared + 3 }
+    if !noisy then
+      if !(repro ≤ reproTol) then
+        acc := { acc with mon := acc.mon.push s!"noiseless-observations-not-reproduced:{fmtF repro}>{fmtF reproTol}" }
+    else
+      if !(maxcos ≤ cosTol) then
+        acc := { acc with mon := acc.mon.push s!"residual-not-orthogonal-to-Jacobian:cos={fmtF maxcos}>{fmtF cosTol}" }
+    -- weighted sum of squares never above that of the generating parameters (slack: rounding of the
+    -- reproduction of exact data)
+    let slack := (reproTol * 10.0) * (reproTol * 10.0) * (n * s).toFloat * 100.0
+    if !(ssqfit ≤ ssqtruth * (1.0 + 1e-6) + slack) then
+      acc := { acc with mon := acc.mon.push s!"SSQ(fit)={fmtF ssqfit}>SSQ(truth)={fmtF ssqtruth}" }
+  | _, _, _, _ => acc := { acc with mon := acc.mon.push "successful-fit-without-residuals/best_fit" }
+  return acc.render tag
+
+end Varpro.Drv
+
+namespace Varpro.Drv
+open Varpro
+
+/-- C19: Monte-Carlo coverage counts produced by the harness on the real code; acceptance bounds
+`|freq − p| ≤ 6·√(p(1−p)/n) + 0.01` and `|mean χ² − 1| ≤ 6·√(2/(νn)) + 0.01` (weights exactly 1/σ_i) -/
+def handleMc (focus : String) (c : Case) : String := Id.run do
+  let _ := focus
+  let ok := attrNat c.header "ok"
+  let failed := attrNat c.header "failed"
+  let dof := attrNat c.header "dof"
+  let wmode := attrNat c.header "wmode"
+  let tag := s!"{attrStr c.header "config"}"
+  let mut acc : Acc := { nontrivial := true }
+  if failed > 0 || ok == 0 then
+    acc := { acc with mon := acc.mon.push s!"{failed}-fits-without-statistics" }
+  let nF := ok.toFloat
+  for l in c.body do
+    if l.getD 0 "" == "cover" then
+      let pr := parseF (attrStr l "p")
+      let bound := 6.0 * (pr * (1.0 - pr) / nF).sqrt + 0.01
+      let mut section_ := "band"
+      let mut idx := 0
+      for t in l.toList.drop 2 do
+        if t == "band" || t == "lin" || t == "nonlin" then
+          section_ := t; idx := 0
+        else if t == "|" then pure ()
+        else
+          match t.toNat? with
+          | some hits =>
+            let freq := hits.toFloat / nF
+            acc := { acc with compared := acc.compared + 1 }
+            if !((freq - pr).abs ≤ bound) then
+              acc := { acc with mon := acc.mon.push s!"coverage-{section_}[{idx}]-p={fmtF pr}-freq={fmtF freq}-bound={fmtF bound}" }
+            idx := idx + 1
+          | none => pure ()
+    if l.getD 0 "" == "chi2mean" && wmode == 1 then
+      let mean := parseF (l.getD 1 "")
+      let bound := 6.0 * (2.0 / (dof.toFloat * nF)).sqrt + 0.01
+      acc := { acc with compared := acc.compared + 1 }
+      if !((mean - 1.0).abs ≤ bound) then
+        acc := { acc with mon := acc.mon.push s!"mean-reduced-chi2={fmtF mean}-bound={fmtF bound}" }
+  return acc.render tag
+
+end Varpro.Drv
